@@ -108,6 +108,29 @@ def script(rng, kinds, workload, feedback, n, timed, failing=False):
     return {"members": members, "steps": steps, "watch": 120000, "settle": 5, "nowire": True}
 
 
+def script_afterclose(rng, kinds, n):
+    """Traffic that keeps arriving after Close (the streams are still bound: reads and writes through the bound reader /
+    writer are permitted and must return): equal phases, the live heap must not grow from one to the next."""
+    members = [{"k": k, "o": {"ivl": 1, "size": 512, "k": 5, "n": 2, "rate": 80_000_000}} for k in kinds]
+    steps = [{"a": "heap", "ms": 20, "kind": "base"}, {"a": "bindw"}, {"a": "bindr"},
+             {"a": "bindl", "s": 1, "nack": True, "twcc": 0, "rtx": True, "fec": True},
+             {"a": "bindm", "s": 2, "nack": True, "twcc": 7, "pli": False},
+             {"a": "wait", "ms": 0, "kind": "feedback-afterclose"}]
+    w = 0
+
+    def phase(k):
+        return {"a": "par", "par": [
+            {"a": "wrtp", "s": 1, "w": w % 65536, "id": 1, "len": 100, "shape": 0, "fail": False, "rep": k, "inc": 1, "gap": 0},
+            {"a": "rrtp", "s": 2, "w": w % 65536, "id": 1, "len": 100, "shape": 0, "tw": w % 65536, "fail": False, "rep": k, "inc": 1,
+             "gap": 0}]}
+    steps += [phase(500), {"a": "wait", "ms": 5}, {"a": "heap", "ms": 30, "kind": "phase"}, {"a": "close"}]
+    w += 500
+    for _ in range(3):
+        steps += [phase(n), {"a": "heap", "ms": 30, "kind": "phase"}]
+        w += n
+    return {"members": members, "steps": steps, "watch": 120000, "settle": 5, "nowire": True}
+
+
 def run_batch(ctx, scripts, tag):
     return vlib.run_batch(ctx, tag=tag, scripts=scripts, pkg_rel="", pkgname="interceptor_test",
                           files=["zz_verif_univ_test.go", "common:zz_verif_pkt_test.go.tpl"],
@@ -140,6 +163,9 @@ def run(ctx):
         scripts.append(script_rtcp(rng, [k], 20000 if ctx.quick else 200000))
     for k in ("pacing", "ccleaky", "nackresp", "flexfec"):      # steady traffic next to a stream whose transport keeps failing
         scripts.append(script(rng, [k], "inorder", True, 2000 if ctx.quick else n, k in TIMED, failing=True))
+    for k in KINDS:                                             # traffic that keeps arriving after Close
+        if k != "rtpfb":                                        # (rtpfb: known finding, grows while no feedback arrives)
+            scripts.append(script_afterclose(rng, [k], 20000 if ctx.quick else 100000))
     if not ctx.quick:
         scripts.append(script(rng, ["nackgen", "nackresp", "rrecv", "rsend", "stats", "flexfec"], "loss", True, n, False))
         scripts.append(script(rng, ["twcchdr", "twccsend", "rtpfb", "stats"], "loss", True, n, True))
